@@ -230,7 +230,7 @@ def gen_scenario(r: random.Random, task: Optional[str] = None, n_frames: Optiona
     }
     if r.random() < 0.5:
         cfg["max_x_position"] = wide
-        cfg["max_y_position"] = wide
+        cfg["max_y_position"] = wide if r.random() < 0.4 else round(wide * r.uniform(0.45, 1.4), 1)  # not always a square
     else:
         cfg["max_distance"] = wide * 1.2
         cfg["min_distance"] = r.choice([0.0, 0.0, 2.0])
